@@ -267,7 +267,11 @@ var model = porcupine.Model{
 	Equal: func(a, b interface{}) bool { return a.(regState).key() == b.(regState).key() },
 	DescribeOperation: func(in, out interface{}) string {
 		i, o := in.(input), out.(output)
-		return fmt.Sprintf("%s(%q,m%d,bin%d)->ok=%v m%d closed=%v %s%s", opNames[i.Kind], i.Name, i.Mod, i.Bin, o.OK, o.Mod, o.Closed, o.Err, i.Note)
+		note := i.Note
+		if o.OwnFailure {
+			note += " [failed for a reason of its own: it never owned its name]"
+		}
+		return fmt.Sprintf("%s(%q,m%d,bin%d)->ok=%v m%d closed=%v %s%s", opNames[i.Kind], i.Name, i.Mod, i.Bin, o.OK, o.Mod, o.Closed, o.Err, note)
 	},
 }
 
@@ -452,6 +456,8 @@ type planOp struct {
 	code uint32
 	pick int  // index into held handles
 	look bool // close/isClosed a looked-up handle instead of a held one
+	// handed: close/isClosed the module a start-section function handed out (the instance being built)
+	handed bool
 	// start > 0: instantiate binD with a configured start function that fails after the instance was
 	// registered: 1 = a host function raises sys.ExitError(3) (the instance itself did not exit),
 	// 2 = the same with exit code 0 (InstantiateModule then returns the closed module and no error), 3 = panic
@@ -764,6 +770,7 @@ func (c10) Run(t *tape.Tape, cfg sim.Config) (res sim.Result) {
 	var seq int64
 	transients := map[int]*transient{} // by task id
 	var cmD, cmE, cmF, cmH wazero.CompiledModule
+	var handedOut api.Module // the instance a start-section function handed out last
 	var memAllocs, memFrees atomic.Int64
 	if !withHandles {
 		if _, err := rt.NewHostModuleBuilder("xh").NewFunctionBuilder().WithFunc(func(_ context.Context, mod api.Module, kind uint32) {
@@ -788,6 +795,9 @@ func (c10) Run(t *tape.Tape, cfg sim.Config) (res sim.Result) {
 				// (a start-section function: it returns normally after giving the others a turn)
 				if cur := simrt.Current(); cur != nil {
 					delete(transients, cur.ID)
+				}
+				if mod.Name() != "xg" {
+					handedOut = mod // the instance being built: somebody else may use the handle
 				}
 				for y := 0; y < 6; y++ {
 					simrt.Yield("host.start-section")
@@ -846,7 +856,15 @@ func (c10) Run(t *tape.Tape, cfg sim.Config) (res sim.Result) {
 	if !withHandles && nclients >= 3 && t.Chance(1, 5) {
 		plans[0] = append([]planOp{{kind: opInst, name: tape.Pick(t, names), bin: t.Choose(2), start: 4 + t.Choose(2)}}, plans[0]...)
 		plans[1] = append([]planOp{{kind: opInst, name: tape.Pick(t, names), bin: t.Choose(2), start: 4 + t.Choose(2)}}, plans[1]...)
-		plans[2] = append([]planOp{{kind: opRtClose, code: uint32(t.Choose(4))}}, plans[2]...)
+		if t.Chance(1, 2) {
+			// ... or with closes of the handle the first start function handed out (the instance being built):
+			// during its start function, right after it, after it was registered
+			plans[0][0].start = 4
+			plans[2] = append([]planOp{{kind: opClose, handed: true, code: uint32(t.Choose(3))}, {kind: opClose, handed: true}}, plans[2]...)
+			res.Stat("probe.focus_close_of_the_instance_handed_out_by_its_start_function", 1)
+		} else {
+			plans[2] = append([]planOp{{kind: opRtClose, code: uint32(t.Choose(4))}}, plans[2]...)
+		}
 		res.Stat("probe.focus_two_start_section_instantiations_and_a_runtime_close", 1)
 	}
 	// faults with workload: an instantiation whose start-section function yields is paired with ANOTHER
@@ -914,6 +932,7 @@ func (c10) Run(t *tape.Tape, cfg sim.Config) (res sim.Result) {
 	}
 
 	// shared harness state (only the baton holder touches it)
+	handedClosed := false
 	var hist []histOp
 	ids := map[api.Module]int{}
 	nextID := 0
@@ -954,7 +973,12 @@ func (c10) Run(t *tape.Tape, cfg sim.Config) (res sim.Result) {
 		var tcm wazero.CompiledModule
 		switch p.kind {
 		case opClose, opIsClosed:
-			if p.look {
+			if p.handed {
+				target = handedOut
+				if target != nil && p.kind == opClose {
+					handedClosed = true
+				}
+			} else if p.look {
 				target = rt.Module(tape.Pick(t, []string{"a", "b"}))
 			} else if len(cs.mods) > 0 {
 				target = cs.mods[p.pick%len(cs.mods)]
@@ -1022,6 +1046,11 @@ func (c10) Run(t *tape.Tape, cfg sim.Config) (res sim.Result) {
 						res.Stat("probe.instantiations_whose_start_section_function_is_imported", 1)
 					} else {
 						mod, err = rt.InstantiateModule(actx, cmE, wazero.NewModuleConfig().WithName(p.name))
+					}
+					if err != nil && handedClosed && strings.Contains(err.Error(), "closed with exit_code") {
+						// closed by another client through the handle its start function handed out: a failure for a
+						// reason of its own; it never owned its name
+						out.OwnFailure = true
 					}
 					startSections++
 				} else if p.start > 0 {
